@@ -21,3 +21,4 @@ for c in $CHECKS; do
   echo "SEEDCHECK $ID check=$c exit=$rc violations=$v no_failing_input=$nf secs=$((t1-t0)) :: $first"
 done
 git -C /repo checkout -- .
+python3 /verif/tools/gen_tables.py /repo /verif/lean/CC/Generated
